@@ -110,6 +110,13 @@ class Scheduler:
         self._focus_n = 0
         self.liveness = []        # records of step-budget overruns
         self.record_where = record_where
+        # ambient perturbation (DESIGN 3.5): junk allocation / garbage collection at a seeded subset of points
+        pt = spec.get('perturb')
+        self._perturb = pt
+        self._perturb_rng = random.Random(pt.get('seed', 0)) if pt else None
+        self._perturb_next = self._perturb_rng.randrange(1, pt.get('every', 200)) if pt else None
+        self._junk = []
+        self.perturbations = 0
 
     # ---- set-up ---------------------------------------------------------------------------
     def _collect_critical(self):
@@ -215,6 +222,8 @@ class Scheduler:
             st.op_lines += 1
             if st.next_alarm is not None and st.op_lines > st.next_alarm:
                 self._overrun(st, code, pos)
+        if self._perturb_next is not None and self.gstep >= self._perturb_next:
+            self._do_perturb()
         cname = self._crit_codes.get(code) if code is not None else None
         if cname is not None and self._parked_regions:
             for other in self.threads:
@@ -225,6 +234,21 @@ class Scheduler:
         target = self._decide(st, cname)
         if target is not None and target is not st:
             self._switch(st, target, kind, code, pos)
+
+    def _do_perturb(self):
+        import gc
+        pt, r = self._perturb, self._perturb_rng
+        self._perturb_next = self.gstep + r.randrange(1, pt.get('every', 200))
+        self.perturbations += 1
+        c = r.randrange(4)
+        if c == 0:
+            self._junk.append([object() for _ in range(r.randrange(1, 200))])
+        elif c == 1 and self._junk:
+            del self._junk[r.randrange(len(self._junk))]
+        elif c == 2:
+            self._junk.append({i: str(i) * 3 for i in range(r.randrange(1, 50))})
+        if pt.get('collect', True) and r.random() < 0.5:
+            gc.collect()
 
     def _overrun(self, st, code, pos):
         st.overruns += 1
